@@ -116,6 +116,8 @@ func execRules(c *Ctx, full bool) {
 		c.Rule("R09f", "Executor.exec: ranges over its files parameter as given, calls Execute on the loop variable, and the error branch of Execute returns (fail-stop)", 3)
 		c.Rule("R09h", "Executor.Pending decides whether the last revision is complete from Applied and Total alone: its conditions read no other Revision field than Applied, Total and Version, and Applied is only ever compared with Total of the same revision", 4)
 		checkPendingReads(c, "R09h")
+		c.Rule("R09k", ruleTextPartialAnywhere, 1)
+		checkPartialAnywhere(c, "R09k")
 	}
 
 	s := loadExecShape(c, "R09a")
